@@ -117,6 +117,11 @@ func runBlock(c blockCase, policy func(y vsync.Yield, i int) int) (res blockResu
 			p = &hagallpb.ParticipantJoinRequest{Type: TJoinReq, Timestamp: ts, RequestId: req, SessionId: ex.M.Live[b.N%len(ex.M.Live)].ID}
 		case "join_new":
 			p = &hagallpb.ParticipantJoinRequest{Type: TJoinReq, Timestamp: ts, RequestId: req}
+		case "join_predicted":
+			// session ids are small consecutive numbers: a client can name the session another client
+			// is creating at this very moment (no session has ended in these prefixes, so the next id
+			// is the number of sessions created so far plus one)
+			p = &hagallpb.ParticipantJoinRequest{Type: TJoinReq, Timestamp: ts, RequestId: req, SessionId: w.Store().GlobalSessionID(uint32(ex.M.sessSeq + 1))}
 		case "close":
 			plan = append(plan, planned{slot: b.Conn, close: true, op: b})
 			continue
@@ -356,7 +361,7 @@ func runBlock(c blockCase, policy func(y vsync.Yield, i int) int) (res blockResu
 			continue // ended
 		}
 		if n := models.VerifFrameHandlerCount(s); n != s.ParticipantCount() {
-			fail("C09,C11,C13", "session %q has %d members but %d per-frame callbacks are registered (a member without one never gets its pose/component updates relayed)", store.GlobalSessionID(s.ID), s.ParticipantCount(), n)
+			fail("C09,C11,C13,C01,C03,C08", "session %q has %d members but %d per-frame callbacks are registered (a member without one never gets its pose/component updates relayed)", store.GlobalSessionID(s.ID), s.ParticipantCount(), n)
 		}
 	}
 	// a departure removes the leaver's non-persistent entities: none may be left whose owner is gone
@@ -684,6 +689,87 @@ func runBlock(c blockCase, policy func(y vsync.Yield, i int) int) (res blockResu
 			}
 		}
 	}
+	// ---- a session created and joined at the same moment: its module state must be ONE state ----
+	predicted := false
+	for _, pl := range plan {
+		predicted = predicted || pl.op.Kind == "join_predicted"
+	}
+	if predicted && res.viol == "" {
+		var members []int
+		var sess *models.Session
+		for _, pl := range plan {
+			if rh := w.RH(pl.slot); rh != nil && !w.Ended(pl.slot) && rh.CurrentSession() != nil && strings.HasPrefix(pl.op.Kind, "join") {
+				if sess == nil || rh.CurrentSession() == sess {
+					sess = rh.CurrentSession()
+					members = append(members, pl.slot)
+				}
+			}
+		}
+		if len(members) >= 2 {
+			// every member stores something in each module, then a newcomer must be handed all of it
+			probeReq := uint32(950000)
+			type stored struct {
+				eid  uint32
+				slot int
+			}
+			var all []stored
+			for _, slot := range members {
+				n0 := len(w.Inbox(slot))
+				probeReq++
+				w.Send(slot, &hagallpb.EntityAddRequest{Type: TEntityAddReq, Timestamp: ts, RequestId: probeReq, Persist: true})
+				var eid uint32
+				for _, rx := range w.Inbox(slot)[n0:] {
+					if m, ok := rx.M.(*hagallpb.EntityAddResponse); ok {
+						eid = m.EntityId
+					}
+				}
+				if eid == 0 {
+					continue
+				}
+				probeReq++
+				w.Send(slot, &vikjapb.EntityActionRequest{Type: TActionReq, Timestamp: ts, RequestId: probeReq, EntityAction: &vikjapb.EntityAction{EntityId: eid, Name: "probe", Timestamp: &timestamppb.Timestamp{Seconds: 1700000500}, Data: []byte{byte(slot)}}})
+				probeReq++
+				w.Send(slot, &odalpb.AssetInstanceAddRequest{Type: TAssetReq, Timestamp: ts, RequestId: probeReq, EntityId: eid, AssetId: "probe"})
+				all = append(all, stored{eid, slot})
+			}
+			newcomer := -1
+			for slot := 0; slot < c.Conns; slot++ {
+				if rh := w.RH(slot); rh == nil || (rh.CurrentSession() == nil && !w.Ended(slot)) {
+					newcomer = slot
+					break
+				}
+			}
+			if newcomer >= 0 && len(all) > 0 {
+				if w.RH(newcomer) == nil {
+					w.Connect(newcomer)
+				}
+				n0 := len(w.Inbox(newcomer))
+				probeReq++
+				w.Send(newcomer, &hagallpb.ParticipantJoinRequest{Type: TJoinReq, Timestamp: ts, RequestId: probeReq, SessionId: store.GlobalSessionID(sess.ID)})
+				actions, assets := map[uint32]bool{}, map[uint32]bool{}
+				joined := false
+				for _, rx := range w.Inbox(newcomer)[n0:] {
+					switch m := rx.M.(type) {
+					case *hagallpb.ParticipantJoinResponse:
+						joined = true
+					case *vikjapb.State:
+						for _, a := range m.EntityActions {
+							actions[a.EntityId] = true
+						}
+					case *odalpb.State:
+						for _, a := range m.AssetInstances {
+							assets[a.EntityId] = true
+						}
+					}
+				}
+				for _, st := range all {
+					if joined && (!actions[st.eid] || !assets[st.eid]) {
+						fail("C16,C01,C09", "the session was created by one connection and joined by another at the same moment; afterwards member c%d stored an entity action and an asset instance for its entity %d, but a newcomer is not handed them (action: %v, asset: %v): the members do not share one module state", st.slot, st.eid, actions[st.eid], assets[st.eid])
+					}
+				}
+			}
+		}
+	}
 	// convergence (C01): what every member can reconstruct equals what the server holds
 	for slot := range ex.M.Conns {
 		rh := w.RH(slot)
@@ -831,6 +917,7 @@ func genBlockCase(rt *rapid.T) blockCase {
 		{"sub", "comp_add"}, {"type_add", "type_add", "type_add"}, {"close", "close", "join_new"}, {"close", "join_new", "join_new"}, {"close", "close", "close"},
 		{"comp_add_on", "entity_del"}, {"comp_add_on", "close"}, {"action_on", "entity_del"}, {"action_on", "close"}, {"comp_add_on", "comp_add_on"},
 		{"comp_add_on", "entity_del", "join_existing"}, {"action_on", "comp_add_on", "close"},
+		{"join_new", "join_predicted"}, {"join_new", "join_predicted", "join_predicted"},
 	}
 	if uni(rt, "with_frames", 5) == 0 {
 		return genFrameBlock(rt)
@@ -1170,6 +1257,7 @@ func TestC07Sched(t *testing.T) { schedTest(t, "C07") }
 func TestC09Sched(t *testing.T) { schedTest(t, "C09") }
 func TestC10Sched(t *testing.T) { schedTest(t, "C10") }
 func TestC12Sched(t *testing.T) { schedTest(t, "C12") }
+func TestC16Sched(t *testing.T) { schedTest(t, "C16") }
 func TestC08Sched(t *testing.T) { schedTest(t, "C08") }
 func TestC11Sched(t *testing.T) { schedTest(t, "C11") }
 func TestC13Sched(t *testing.T) { schedTest(t, "C13") }
